@@ -28,6 +28,7 @@ REGISTRY = {
     'C20': ('checks.proc', 'c20'),
     # beyond the listed properties (evidence under extras/evidence/)
     'X01': ('checks.extras', 'x01'),
+    'X02': ('checks.extras', 'x02'),
 }
 
 
